@@ -48,6 +48,13 @@ class C01(Prop):
         for i in range(n):
             g = ac.Gen(random.Random(rng.getrandbits(48)), full=True, depth=rng.choice([1, 2, 2, 3]),
                        carried=rng.choice([0.0, 0.0, 0.0, 0.5]))
+            if i % 5 >= 3:
+                # redundancy-heavy programs (configurations re-used, restored, changed in one field) around one accelerator with
+                # control flow that drives only the other one in between: the shapes the dedup patterns' legality checks are about
+                g.accs = ac.ACCS
+                g.scope_accs = [g.accs]
+                g.focus = True
+                g.sticky = rng.choice([0.5, 0.8])
             yield {"kind": "dedup", "src": g.program(), "xseed": rng.getrandbits(32)}
 
     def impl(self, case):
